@@ -418,7 +418,7 @@ fn enumerate6(seed: u64, run: u64, tier: Tier, slices: u64) -> Plan {
     // blobs written with degenerate or unusual cost parameters (whatever a writer accepts): still bound
     // to the password
     if wk == WrapKind::Pw {
-        let odd: Vec<PwParams> = if f == 1 || f == 3 { vec![PwParams::Iter(0), PwParams::Iter(1)] } else { vec![PwParams::Argon(16 * 1024, 1, 2), PwParams::Argon(32 * 1024, 1, 4), PwParams::Argon(8 * 1024, 1, 0), PwParams::Argon(8 * 1024, 0, 1)] };
+        let odd: Vec<PwParams> = if f == 1 || f == 3 { vec![PwParams::Iter(0), PwParams::Iter(1)] } else { vec![PwParams::Argon(16 * 1024, 1, 2), PwParams::Argon(32 * 1024, 1, 4), PwParams::Argon(8 * 1024, 1, 0), PwParams::Argon(8 * 1024, 0, 1), PwParams::Argon((1 << 42) + 65536, 1, 1), PwParams::Argon((1 << 52) + 8192 * 1024, 1, 1)] };
         for p in odd {
             for &writer in &readers {
                 let blob3 = b.blob_slot();
